@@ -956,3 +956,17 @@ def replay_c11_g2(args):
         if got[0] != exp[0] or (got[0] == "pt" and got != exp):
             bad.append((hex(w1)[:24], hex(w2)[:24], got[:1], exp[:1]))
     return (len(bad) > 0), "c11_g2: %d mismatches; first %s" % (len(bad), str(bad[:2])[:300])
+
+
+def replay_c11_bytes(args):
+    from py_ecc.bls import g2_primitives as g, G2ProofOfPossession as S
+    from py_ecc.optimized_bls12_381 import G1, G2, multiply, normalize
+    bad = []
+    for k in (1, 2, 3, 12345, 2 ** 200 + 7):
+        P1, P2 = multiply(G1, k), multiply(G2, k)
+        pk, sig = g.G1_to_pubkey(P1), g.G2_to_signature(P2)
+        if len(pk) != 48 or len(sig) != 96:
+            bad.append(("length", k, len(pk), len(sig)))
+        if normalize(g.pubkey_to_G1(pk)) != normalize(P1) or normalize(g.signature_to_G2(sig)) != normalize(P2):
+            bad.append(("roundtrip", k))
+    return (len(bad) > 0), "c11_bytes: %d failures %s" % (len(bad), bad[:2])
